@@ -277,8 +277,34 @@ def rule_window(check):
     for n in lits:
         for fl in n["fields"]:
             vals[fl["name"]] = hir.lit_value(fl["e"])
-    check.expect(vals.get("min_literal_length") == 10 and vals.get("max_literal_length") == 256, R, R + "/constants", hir.loc(d.rec), "min=10 max=256", "window constants are %s" % {k: v for k, v in vals.items() if "length" in k})
     a = prog.fn("LiteralVisitor::add_literal")
+
+    def _bound(side):
+        """the number a bound of the window stands for: a field of the visitor (its value in `default`), a constant"""
+        side = _side(side)
+        for fld, v_ in vals.items():
+            if side.endswith("." + fld) and isinstance(v_, int):
+                return v_
+        if "::" in side:
+            try:
+                c_ = prog.consts.get(side) or [c2 for d2, c2 in prog.consts.items() if d2.endswith("::" + side.split("::")[-1])][0]
+                v_ = hir.lit_value(c_["body"])
+                return v_ if isinstance(v_, int) else None
+            except (IndexError, KeyError):
+                return None
+        return None
+
+    def _measured(fn_, side):
+        """what is measured: `len(<..>.value)` through a local holding the length"""
+        side = _side(side)
+        if side.startswith("len("):
+            return side
+        for lid, b_ in fn_.bindings().items():
+            if b_["name"] == side.split("#")[0] and b_["origin"][0] == "let" and b_["origin"][1] is not None:
+                i_ = hir.peel(b_["origin"][1])
+                if hir.is_call(i_) and (hir.callee_name(i_) or i_.get("method")) == "len":
+                    return "len(%s)" % _side(hir.place(hir.call_args(i_)[0]) or "?")
+        return side
     ins = [n for n in hir.walk(a.body) if hir.is_call(n) and (hir.callee_name(n) or n.get("method")) in ("insert", "push", "push_back", "or_insert", "or_insert_with", "or_default", "extend")]
     check.floor(R, "recordings in add_literal", len(ins), 1)
     for n in ins:
@@ -287,6 +313,16 @@ def rule_window(check):
         cmps = sorted((x[1] if x[4] else FLIP[x[1]], _side(x[2]), _side(x[3]), True) for x in atoms if x[0] == "cmp")
         want = sorted([("Gt", "len(value)", "self.min_literal_length", True), ("Le", "len(value)", "self.max_literal_length", True)])
         others = [x for x in atoms if x[0] not in ("cmp", "closure") and not (x[0] == "call" and x[1] == "contains_key")]
+        # by meaning: the byte length of the literal's value is > 10 and <= 256, wherever the two numbers live
+        owner_ = {}
+        for x in atoms:
+            if x[0] == "cmp" and isinstance(x[-1], dict):
+                for h_ in prog.user_fns:
+                    if any(y is x[-1] for y in h_.nodes()):
+                        owner_[id(x)] = h_
+        sem = sorted((x[1] if x[4] else FLIP[x[1]], "value" if _measured(owner_.get(id(x), a), x[2]).rstrip(")").endswith("value") else _measured(owner_.get(id(x), a), x[2]), _bound(x[3])) for x in atoms if x[0] == "cmp")
+        # (the shape `len(value) > self.min && len(value) <= self.max` alone does not say what min and max are)
+        cmps = want if sem == [("Gt", "value", 10), ("Le", "value", 256)] else (cmps if cmps != want else sem)
         check.expect(cmps == want and not others, R, "%s/condition/%s" % (R, "set" if "Set<" in hir.peel(hir.call_args(n)[0]).get("ty", "") else "vec" if "Vec<" in hir.peel(hir.call_args(n)[0]).get("ty", "") else "map"), hir.loc(n), "recorded iff len > min && len <= max", "literal recorded under %s %s" % (cmps, [hir.describe(x[-1]) if isinstance(x[-1], dict) and "k" in x[-1] else x[:3] for x in others]))
     pv = Prov(prog)
     lens = [n for n in hir.calls_in(a.body, name="len")]
